@@ -23,7 +23,7 @@ PID = "C19"
 URL = "http://fake.endpoint/sparql"
 RULE = ("Hypothesis-generated cases (graphs x switches x threshold x channel in {raw NT, TSV, TURTLE_ITER, TURTLE via rdflib, rdflib "
         "Graph, shape map with node/FOCUS/SPARQL selectors, fake SPARQL endpoint} x {target_classes, all_classes_mode} x namespaces "
-        "dict), each executed in fresh subprocesses under 4 (thorough: 8) PYTHONHASHSEED values: 0, 1 and values that change from batch to batch.  Oracle: identical SHA-256 of "
+        "dict (on byte-compared channels 1 case in 4 with 1-4 namespaces nested without a separator, examples_mode and detect_minimal_iri on)), each executed in fresh subprocesses under 4 (thorough: 8) PYTHONHASHSEED values: 0, 1 and values that change from batch to batch.  Oracle: identical SHA-256 of "
         "the ShExC text and identical canonical SHACL graph across the seeds; for rdflib-ordered channels canonical-document "
         "equality instead of byte equality.  An evaluation is one case under all seeds.  Non-trivial: >=2 equally frequent constraints "
         "or >=3 target nodes (an order dependence would be visible); distinct by SHA-1 of the case.")
@@ -32,6 +32,8 @@ ASSUMPTIONS = ["4 (quick) / 8 (thorough) hash seeds per case: a dependence that 
 BUDGET = {"quick": {"examples": 0, "wall": 240, "cases": 2560}, "thorough": {"examples": 0, "wall": 1200, "cases": 8000}}
 FLOORS = {"nontrivial": 0.3, "chan:endpoint": 0.05, "chan:sm": 0.05, "byte-compared": 0.3}
 RDFLIB_ORDERED = ("turtle", "rdflib", "endpoint-cached")
+NESTED = ["http://ex.org/n", "http://ex.org/ns/n", "http://ex.org/ns/C", "http://ex.org/C", "http://other.org/v#n", "https://data.example/n",
+          "http://ex.org/p", "http://ex.org/ns/p"]
 NS4 = {"http://a.org/": "", "http://b.org/": "weso-s", "http://c.org/": "shapes", "http://d.org/": "w-shapes"}
 
 
@@ -108,6 +110,14 @@ def cases(draw):
                                    "hollow": draw(st.lists(st.integers(0, 3), min_size=1, max_size=3, unique=True))}
     if chan in ("ntfiles", "zip"):
         case["parts"] = draw(st.integers(2, 5))       # files of the list / members of the archive (statement i goes to part i % parts)
+    if chan in ("nt", "tsv", "turtle_iter", "ntfiles", "zip", "gz") and draw(st.integers(0, 3)) == 0:
+        # namespaces nested WITHOUT a separator between them (http://ex.org/ns/ and http://ex.org/ns/n, as obo/ and obo/GO_): two
+        # prefixes can abbreviate the same IRI, the first declared one has to win in every process.  Examples / minimal IRIs
+        # are switched on because the instance IRIs are what those namespaces abbreviate (byte-compared channels only).
+        case["nested_ns"] = draw(st.lists(st.sampled_from(NESTED), min_size=1, max_size=4, unique=True))
+        case["nested_first"] = draw(st.booleans())
+        cfg["examples_mode"] = draw(st.sampled_from(["all", "all", "shape", "cons"]))
+        cfg["detect_minimal_iri"] = draw(st.booleans())
     k = draw(st.integers(0, 7))
     if k == 0:
         case["all_prefixes_taken"] = True      # the documented exception: a random prefix is chosen
@@ -126,6 +136,11 @@ def run_case_here(case):
     kw["namespaces_dict"] = dict(NS4) if case.get("all_prefixes_taken") else dict(c10.NSD)
     if case.get("prefixes_taken"):
         kw["namespaces_dict"] = dict(list(NS4.items())[:case["prefixes_taken"]])
+    if case.get("nested_ns"):
+        extra = {ns: "n%d" % NESTED.index(ns) for ns in case["nested_ns"]}
+        base = kw["namespaces_dict"]
+        kw["namespaces_dict"] = dict(list(extra.items()) + list(base.items())) if case.get("nested_first") \
+            else dict(list(base.items()) + list(extra.items()))
     chan = case["chan"]
     tmpd = None
     if chan == "sm":
